@@ -30,8 +30,10 @@ func cellRule(cell int, i int) []string {
 		sub = "bob"
 	}
 	eft := []string{"allow", "deny", "other"}[cell%3]
-	if cell%3 == 2 && i%2 == 1 {
-		eft = "" // an empty effect field is an effect that is neither allow nor deny, like any other word
+	if cell%3 == 2 {
+		// an effect that is neither "allow" nor "deny" — another word, the empty string, or one of the two spelled
+		// with capitals — decides nothing
+		eft = []string{"other", "", "Allow", "DENY"}[i%4]
 	}
 	return []string{sub, fmt.Sprintf("o%d", i), "read", eft}
 }
@@ -52,7 +54,7 @@ func runC02(c *Ctx) {
 		maxN = 7
 	}
 	c.Exhaustive = true
-	c.Rule = fmt.Sprintf("every vector in ({matched,unmatched} x {allow,deny,other})^n for 1 <= n <= %d and each of the 5 effect expressions, driven through the real Enforce/EnforceEx/BatchEnforce on a model whose matcher is r.sub == p.sub (exhaustive), each followed (n <= 4) on the same enforcer by EnforceWithMatcher / EnforceExWithMatcher / BatchEnforceWithMatcher with a custom matcher that selects one rule by its object; n = 0 (empty policy, also after the last rule was removed) for each effect; every ordered pair of distinct effects as e / e2 with the request made through EnforceContext (e2 must decide; both as a struct literal over r/p/m and as NewEnforceContext(\"2\") over a complete second set r2/p2/e2/m2), vectors of length <= 2; every vector of length <= 3 again with a matcher function that itself calls Enforce for another subject (the outer decision and explanation must not change); every direct MergeEffects call on arrays of length <= 3 at every index; non-trivial = at least one matched rule; distinct = (effect, vector)", maxN)
+	c.Rule = fmt.Sprintf("every vector in ({matched,unmatched} x {allow,deny,other})^n for 1 <= n <= %d and each of the 5 effect expressions, driven through the real Enforce/EnforceEx/BatchEnforce on a model whose matcher is r.sub == p.sub (exhaustive), each followed (n <= 4) on the same enforcer by EnforceWithMatcher / EnforceExWithMatcher / BatchEnforceWithMatcher with a custom matcher that selects one rule by its object; n = 0 (empty policy, also after the last rule was removed) for each effect; every ordered pair of distinct effects as e / e2 with the request made through EnforceContext (e2 must decide; both as a struct literal over r/p/m and as NewEnforceContext(\"2\") over a complete second set r2/p2/e2/m2), vectors of length <= 2; every vector of length <= 3 again on a policy definition whose effect column comes first, and with a matcher function that itself calls Enforce for another subject (the outer decision and explanation must not change); every direct MergeEffects call on arrays of length <= 3 at every index; non-trivial = at least one matched rule; distinct = (effect, vector)", maxN)
 
 	for _, k := range effectKinds {
 		e, err := casbin.NewEnforcer(c02Model(k.expr))
@@ -264,6 +266,54 @@ func runC02(c *Ctx) {
 				c.Evals++
 				c.Count("second_definition_set_calls", 1)
 			}
+		}
+	}
+
+	// the effect column is found by its name, wherever it stands: the same vectors (n <= 3) on a definition that
+	// puts it first
+	for _, k := range effectKinds {
+		m := model.NewModel()
+		m.AddDef("r", "r", "sub, obj, act")
+		m.AddDef("p", "p", "eft, sub, obj, act")
+		m.AddDef("g", "g", "_, _")
+		m.AddDef("e", "e", k.expr)
+		m.AddDef("m", "m", "r.sub == p.sub")
+		e, err := casbin.NewEnforcer(m)
+		if err != nil {
+			panic(err)
+		}
+		for code := 0; code < 6+36+216; code++ {
+			var vec []int
+			switch {
+			case code < 6:
+				vec = []int{code}
+			case code < 42:
+				vec = []int{(code - 6) / 6, (code - 6) % 6}
+			default:
+				x := code - 42
+				vec = []int{x / 36, (x / 6) % 6, x % 6}
+			}
+			e.ClearPolicy()
+			rules := make([][]string, len(vec))
+			names := make([]string, len(vec))
+			for i, cell := range vec {
+				r := cellRule(cell, i)
+				rules[i] = []string{r[3], r[0], r[1], r[2]}
+				names[i] = cellNames[cell]
+			}
+			_, _ = e.AddPolicies(rules)
+			ok, explain, err := e.EnforceEx("alice", "x", "read")
+			idx := -1
+			if len(explain) > 0 {
+				fmt.Sscanf(explain[2], "o%d", &idx)
+			}
+			obs := fmt.Sprintf("%v %d", ok, idx)
+			if err != nil {
+				obs = "err"
+			}
+			c.W.Op(fmt.Sprintf("enfvec %s %s", k.name, strings.Join(names, "")), obs)
+			c.Evals++
+			c.Count("effect_column_first_calls", 1)
 		}
 	}
 
